@@ -168,7 +168,7 @@ fn name_closure(which: &str, toks: &[T], def_markers: &[&[&str]], builtins: &[&s
         for m in def_markers {
             if i + m.len() < toks.len() && m.iter().enumerate().all(|(k, w)| toks[i + k] == T::Ident(w.to_string())) {
                 if let T::Ident(n) = &toks[i + m.len()] {
-                    if !defined.insert(n.clone()) && which == "ts" {
+                    if !defined.insert(n.clone()) && (which == "ts" || which == "mo") {
                         return Err(format!("{n} is defined twice"));
                     }
                     def_pos.insert(i + m.len());
@@ -433,14 +433,31 @@ impl Check for C19 {
                     ));
                 }
                 if let Some(keys) = keys {
-                    // Motoko spells a method that is a keyword with a trailing underscore
-                    let norm = |v: &[String]| -> Vec<String> {
-                        let mut v: Vec<String> = v.iter().map(|s| if which == "mo" { s.strip_suffix('_').unwrap_or(s).to_string() } else { s.clone() }).collect();
-                        v.sort();
-                        v
+                    // Motoko appends an underscore to a method that is a keyword or itself ends
+                    // in an underscore: each method must own exactly one key, spelled m or m_
+                    let (k, m) = if which == "mo" {
+                        let mut left: Vec<String> = keys.clone();
+                        let mut ms: Vec<String> = methods.clone();
+                        ms.sort_by_key(|x| std::cmp::Reverse(x.len()));
+                        let mut unmatched: Vec<String> = vec![];
+                        for m in &ms {
+                            let with = format!("{m}_");
+                            if let Some(i) = left.iter().position(|k| *k == with).or_else(|| left.iter().position(|k| k == m)) {
+                                left.remove(i);
+                            } else {
+                                unmatched.push(m.clone());
+                            }
+                        }
+                        left.sort();
+                        unmatched.sort();
+                        (left, unmatched)
+                    } else {
+                        let mut k = keys.clone();
+                        k.sort();
+                        let mut m = methods.clone();
+                        m.sort();
+                        (k, m)
                     };
-                    let k = norm(&keys);
-                    let m = norm(&methods);
                     if k != m {
                         return Outcome::Fail(Failure::new(
                             format!("{which}:service-methods-differ"),
